@@ -292,6 +292,53 @@ Fixpoint sp_qrun (pol:nat) (mc:machine) (st:qstate) (l:list op) : list (list tit
   | o :: t => let '(items, out, st') := sp_qop pol mc o st in (items, out, sp_snapshot mc (fst st') []) :: sp_qrun pol mc st' t
   end.
 
+(* backmp11: start() of a machine without history of its own empties the pool (the stored occurrences are dropped, not
+   dispatched), and its entry behaviour reads the ids the machine was stopped in; everything else as above *)
+Definition sp_qop_mp11 (pol:nat) (mc:machine) (o:op) (st:qstate) : list titem * option (bool * bool) * qstate :=
+  let '(c, pend) := st in
+  match o with
+  | OStart _ _ => let '(i, c') := sp_start_obs (c_act c) mc c in (rev i, None, (c', []))
+  | OStop _ => let '(i, c') := sp_stop mc c in (rev i, None, (c', pend))
+  | OProcess e val _ => let o := sp_process pol mc e val c in
+                        let '(i, c') := sp_drain pol mc val pend (o_conf o) in
+                        (rev (i ++ o_items o), Some (o_taken o, o_rejected o), (c', []))
+  | OEnqueue e => ([], None, (c, pend ++ [e]))
+  | ODrain val _ => let '(i, c') := sp_drain pol mc val pend c in (rev i, None, (c', []))
+  | _ => ([], None, st)
+  end.
+Fixpoint sp_qrun_mp11 (pol:nat) (mc:machine) (st:qstate) (l:list op) : list (list titem * option (bool * bool) * list (list nat * list nat)) :=
+  match l with
+  | [] => []
+  | o :: t => let '(items, out, st') := sp_qop_mp11 pol mc o st in (items, out, sp_snapshot mc (fst st') []) :: sp_qrun_mp11 pol mc st' t
+  end.
+(* histories backmp11 is specified on: start() and stop() alternate, events are sent and the pool is processed while started *)
+Fixpoint qbracketed (started:bool) (l:list op) : Prop :=
+  match l with
+  | [] => True
+  | o :: t =>
+      match o, started with
+      | OStart _ [], false => qbracketed true t
+      | OStop [], true => qbracketed false t
+      | OProcess e _ [], true => e_ty e <> EV_NONE /\ qbracketed true t
+      | OEnqueue e, _ => e_ty e <> EV_NONE /\ qbracketed started t
+      | ODrain _ [], true => qbracketed true t
+      | _, _ => False
+      end
+  end.
+Fixpoint qbracketedb (started:bool) (l:list op) : bool :=
+  match l with
+  | [] => true
+  | o :: t =>
+      match o, started with
+      | OStart _ [], false => qbracketedb true t
+      | OStop [], true => qbracketedb false t
+      | OProcess e _ [], true => negb (Nat.eqb (e_ty e) EV_NONE) && qbracketedb true t
+      | OEnqueue e, _ => negb (Nat.eqb (e_ty e) EV_NONE) && qbracketedb started t
+      | ODrain _ [], true => qbracketedb true t
+      | _, _ => false
+      end
+  end.
+
 Definition qplain_op (o:op) : Prop :=
   match o with
   | OStart _ [] => True
@@ -314,6 +361,7 @@ Definition qplain_opb (o:op) : bool :=
   | _ => false
   end.
 Definition spec_qtrace (pol:nat) (mc:machine) (l:list op) := sp_qrun pol mc (abs (init_rnode mc), []) l.
+Definition spec_qtrace_mp11 (pol:nat) (mc:machine) (l:list op) := sp_qrun_mp11 pol mc (abs (init_rnode mc), []) l.
 
 (* the specification's trace of a history on a fresh object *)
 Definition spec_trace (stale:bool) (pol:nat) (mc:machine) (l:list op) :=
